@@ -444,6 +444,12 @@ for k in ('common:ProcessSlots', 'common:StateTransition', 'common:PostSlotTrans
     EXTRA.setdefault('eth2/beacon/' + k, []).append(_VG)
 for k in ('eth2/beacon/phase0:ProcessEpochRewardsAndPenalties', 'eth2/beacon/altair:ProcessEpochRewardsAndPenalties'):
     EXTRA.setdefault(k, []).append('//@   assigns ghost(n_biter), ghost(biter_pos), ghost(biter_reg)')
+# deposits: index counter and registry growth are recorded in ghosts
+_DG = '//@   assigns ghost(n_inc_depidx), ghost(n_add_val), ghost(add_val_pub), ghost(add_val_creds), ghost(add_val_bal)'
+for f in ('phase0', 'altair', 'bellatrix', 'capella', 'deneb'):
+    EXTRA.setdefault('eth2/beacon/%s:BeaconStateView.ProcessBlock' % f, []).append(_DG)
+for k in ('eth2/beacon/common:PostSlotTransition', 'eth2/beacon/common:StateTransition', 'eth2/beacon/phase0:ProcessDeposits'):
+    EXTRA.setdefault(k, []).append(_DG)
 sig = re.compile(r'^func (\((\w+) (\*?)(\w+)\) )?(\w+)\((.*)\) (.*) \{$')
 out = collections.defaultdict(list)
 for root, _, files in os.walk(os.path.join(REPO, 'eth2/beacon')):
